@@ -96,6 +96,17 @@ except TypeError:
 #           Improvement of the Smallwood Algorithm",
 #           http://www.vibrationdata.com/tutorials/Ahlin_SRS.pdf
 
+# Verification hook: a no-op unless the environment variable PYYETI_VERIF=1 is set at import time AND
+# a test harness installs a callback in `_verif_hook` (inherited by forked pool workers).
+_VERIF = os.environ.get("PYYETI_VERIF") == "1"
+_verif_hook = None
+
+
+def _verif(event, j):
+    if _VERIF and _verif_hook is not None:
+        _verif_hook(event, j)
+
+
 HIST_ = None
 ICVALS_ = None
 SIG_ = None
@@ -480,7 +491,9 @@ def _dosrs_nohist(args):
     (j, (coeffunc, Q, dT, methfunc, S)) = args
     b, a = coeffunc(Q, dT, WN_[j])
     resphist = signal.lfilter(b, a, SIG_, axis=0)
+    _verif("pre", j)
     SRSmax_[j] = methfunc(resphist[S:])
+    _verif("post", j)
 
 
 def _dosrs(args):
@@ -489,8 +502,10 @@ def _dosrs(args):
     (j, (coeffunc, Q, dT, methfunc, S)) = args
     b, a = coeffunc(Q, dT, WN_[j])
     resphist = signal.lfilter(b, a, SIG_, axis=0)
+    _verif("pre", j)
     SRSmax_[j] = methfunc(resphist[S:])
     HIST_[:, :, j] = resphist[S:]
+    _verif("post", j)
 
 
 def _mk_par_globals_ic(wn, sig, icvals, srsmax, hist):
@@ -516,7 +531,9 @@ def _dosrs_nohist_ic(args):
     else:
         # stype == 'pacce' or 'absacce'
         resphist += ICVALS_
+    _verif("pre", j)
     SRSmax_[j] = methfunc(resphist[S:])
+    _verif("post", j)
 
 
 def _dosrs_ic(args):
@@ -532,8 +549,10 @@ def _dosrs_ic(args):
     else:
         # stype == 'pacce' or 'absacce'
         resphist += ICVALS_
+    _verif("pre", j)
     SRSmax_[j] = methfunc(resphist[S:])
     HIST_[:, :, j] = resphist[S:]
+    _verif("post", j)
 
 
 def _process_inputs(stype, peak, rolloff, time):
